@@ -263,6 +263,13 @@ pub fn run(ctx: &mut Ctx) {
             Outc::Ok { consumed, reencodes } if *consumed == bytes.len() && *reencodes => {}
             _ => ctx.violation(&format!("honest {} does not round-trip: {:?}", name, real), json!({"class": "honest-roundtrip", "type": name, "bytes": hex::encode(bytes)})),
         }
+        // 1b. … and through a self-describing format (field names recorded, sequence lengths not announced)
+        ctx.evals += 1;
+        match (e.json)(bytes) {
+            Ok(true) => ctx.count("json-roundtrip:same"),
+            Ok(false) => ctx.violation(&format!("honest {} written as JSON and read back re-encodes to different bytes", name), json!({"class": "json-roundtrip-differs", "type": name, "bytes": hex::encode(bytes)})),
+            Err(err) => ctx.violation(&format!("honest {} does not survive a JSON round trip: {}", name, err), json!({"class": "json-roundtrip-fails", "type": name, "error": err, "bytes": hex::encode(bytes)})),
+        }
         if bytes.len() > 20000 { continue; } // the long vector: honest round trip only
         // 2. each atom replaced by each invalid / boundary encoding
         let stride = if ctx.thorough() || atoms.len() <= 40 { 1 } else { atoms.len() / 40 + 1 };
@@ -335,6 +342,25 @@ pub fn run(ctx: &mut Ctx) {
                     if is_balance_pos && (what == "u64-2^63" || what == "u64-2^64-1") {
                         ctx.violation(&format!("{} decodes with a balance above 2^63-1", name), json!({"class": "decode-accepts-balance-above-i64-max", "type": name, "bytes": hex::encode(&b2)}));
                     }
+                }
+            }
+        }
+        // 3. two element atoms set to the identity together (every pair; for long types a rotating sample): a
+        // validator that combines per-element tests wrongly (xor for or, any for all) agrees with the invariant on
+        // every single replacement and differs only on pairs
+        {
+            let els: Vec<(usize, usize)> = atoms.iter().filter(|(_, _, k)| *k == 'A' || *k == 'B').map(|(o, l, _)| (*o, *l)).collect();
+            let npairs = els.len() * els.len().saturating_sub(1) / 2;
+            let stride = if ctx.thorough() { 1.max(npairs / 400) } else { 1.max(npairs / 90) };
+            let mut p = 0usize;
+            for x in 0..els.len() {
+                for y in x + 1..els.len() {
+                    p += 1;
+                    if p % stride != (i + ctx.shard) % stride { continue; }
+                    let mut b2 = bytes.clone();
+                    for (o, l) in [els[x], els[y]] { for z in b2[o..o + l].iter_mut() { *z = 0; } b2[o] = 0xc0; }
+                    if b2 == *bytes { continue; }
+                    let _ = compare(ctx, e, &b2, &atoms, "two-elements-identity");
                 }
             }
         }
